@@ -72,10 +72,17 @@ type Fixtures struct {
 	DataNames []string
 }
 
+func RepoDir() string {
+	if d := os.Getenv("VERIF_REPO"); d != "" {
+		return d
+	}
+	return "/repo"
+}
+
 func LoadFixtures(maxData, maxProfiles int) *Fixtures {
 	f := &Fixtures{}
 	var dataFiles, profFiles, other []string
-	_ = filepath.Walk("/repo/test/data", func(p string, info os.FileInfo, err error) error {
+	_ = filepath.Walk(RepoDir()+"/test/data", func(p string, info os.FileInfo, err error) error {
 		if err != nil || info.IsDir() {
 			return nil
 		}
@@ -87,7 +94,7 @@ func LoadFixtures(maxData, maxProfiles int) *Fixtures {
 		}
 		return nil
 	})
-	_ = filepath.Walk("/repo/docs/validation_tutorial/examples", func(p string, info os.FileInfo, err error) error {
+	_ = filepath.Walk(RepoDir()+"/docs/validation_tutorial/examples", func(p string, info os.FileInfo, err error) error {
 		if err != nil || info.IsDir() {
 			return nil
 		}
